@@ -2457,3 +2457,151 @@ Print Assumptions read_own_writes.
 Print Assumptions visible_after_sync_points.
 Print Assumptions bb_equals_default.
 Print Assumptions collective_flush_numrecs.
+
+(* ------------------------------------------------------------------------------------------- *)
+(** * Part III: every replayed entry is given its OWN bytes of the data log, for any pattern of
+      valid and cancelled entries (reads at [databuffer + dataread], seeks over cancelled bytes) *)
+Section DataLogProofs.
+Variable A : Type.
+Variable cells : entry -> list A.
+
+Lemma write_at_append : forall (d buf : list A), write_at A (length buf) d buf = buf ++ d.
+Proof.
+  intros d buf. unfold write_at. rewrite firstn_all. rewrite skipn_all2 by lia. rewrite app_nil_r. reflexivity.
+Qed.
+
+Lemma skipn_app_exact : forall (pre rest : list A), skipn (length pre) (pre ++ rest) = rest.
+Proof. intros pre rest. rewrite skipn_app, skipn_all, Nat.sub_diag. reflexivity. Qed.
+
+Lemma firstn_app_exact : forall (u rest : list A), firstn (length u) (u ++ rest) = u.
+Proof. intros u rest. rewrite firstn_app, firstn_all, Nat.sub_diag. cbn [firstn]. apply app_nil_r. Qed.
+
+Lemma do_read_spec : forall dl s B U pre R,
+  dl = pre ++ U ++ R -> length pre = rd_pos A s -> rd_buf A s = B -> length B = rd_read A s ->
+  rd_used A s = (rd_read A s + length U)%nat ->
+  let s' := do_read A true dl s in
+  rd_pos A s' = (length pre + length U)%nat /\ rd_buf A s' = B ++ U /\
+  rd_read A s' = rd_used A s /\ rd_used A s' = rd_used A s.
+Proof.
+  intros dl s B U pre R Hdl Hpos Hbuf Hlen Hused. cbv zeta. unfold do_read.
+  destruct (rd_read A s <? rd_used A s)%nat eqn:E.
+  - cbn [rd_pos rd_buf rd_read rd_used].
+    replace (rd_used A s - rd_read A s)%nat with (length U) by lia.
+    split; [lia|]. split; [|split; reflexivity].
+    rewrite Hbuf, <- Hlen, write_at_append. f_equal.
+    rewrite Hdl, <- Hpos, skipn_app_exact. apply firstn_app_exact.
+  - apply Nat.ltb_ge in E. assert (HU : length U = 0%nat) by lia.
+    destruct U; [|discriminate]. cbn [length] in *. rewrite app_nil_r.
+    split; [lia|]. split; [exact Hbuf|]. split; [lia | reflexivity].
+Qed.
+
+Lemma valid_entries_cons_true : forall e r, e_valid e = true -> valid_entries (e :: r) = e :: valid_entries r.
+Proof. intros e r H. unfold valid_entries. cbn [filter]. rewrite H. reflexivity. Qed.
+
+Lemma valid_entries_cons_false : forall e r, e_valid e = false -> valid_entries (e :: r) = valid_entries r.
+Proof. intros e r H. unfold valid_entries. cbn [filter]. rewrite H. reflexivity. Qed.
+
+Lemma scan_read_spec : forall dl b s B U pre R,
+  dl = pre ++ U ++ flat_map cells b ++ R -> length pre = rd_pos A s -> rd_buf A s = B -> length B = rd_read A s ->
+  rd_used A s = (rd_read A s + length U)%nat ->
+  let s' := scan_read A cells true dl b s in
+  rd_buf A s' = B ++ U ++ flat_map cells (valid_entries b) /\
+  rd_pos A s' = (length pre + length U + length (flat_map cells b))%nat.
+Proof.
+  intros dl b. induction b as [|e r IH]; intros s B U pre R Hdl Hpos Hbuf Hlen Hused; cbv zeta; cbn [scan_read].
+  - cbn [flat_map app] in Hdl.
+    destruct (do_read_spec dl s B U pre R Hdl Hpos Hbuf Hlen Hused) as (H1 & H2 & _).
+    cbn [valid_entries filter flat_map length]. rewrite app_nil_r. split; [exact H2 | lia].
+  - destruct (e_valid e) eqn:Ev.
+    + rewrite (valid_entries_cons_true e r Ev). cbn [flat_map].
+      destruct (IH (mkRd A (rd_pos A s) (rd_buf A s) (rd_read A s) (rd_used A s + length (cells e))) B (U ++ cells e) pre R)
+        as (H1 & H2); cbn [rd_pos rd_buf rd_read rd_used]; try assumption.
+      * rewrite Hdl. cbn [flat_map]. rewrite <- !app_assoc. reflexivity.
+      * rewrite app_length. lia.
+      * cbv zeta in H1, H2. split; [rewrite H1, <- !app_assoc; reflexivity|].
+        rewrite H2, !app_length. lia.
+    + rewrite (valid_entries_cons_false e r Ev). cbn [flat_map] in Hdl.
+      assert (Hdl1 : dl = pre ++ U ++ (cells e ++ flat_map cells r ++ R)) by (rewrite Hdl, <- !app_assoc; reflexivity).
+      destruct (do_read_spec dl s B U pre _ Hdl1 Hpos Hbuf Hlen Hused) as (P1 & P2 & P3 & P4). cbv zeta in P1, P2, P3, P4.
+      destruct (IH (mkRd A (rd_pos A (do_read A true dl s) + length (cells e)) (rd_buf A (do_read A true dl s))
+                          (rd_read A (do_read A true dl s)) (rd_used A (do_read A true dl s)))
+                   (B ++ U) [] (pre ++ U ++ cells e) R) as (H1 & H2); cbn [rd_pos rd_buf rd_read rd_used].
+      * rewrite Hdl. cbn [app]. rewrite <- !app_assoc. reflexivity.
+      * rewrite P1, !app_length. lia.
+      * exact P2.
+      * rewrite app_length, P3, Hused. lia.
+      * cbn [length]. rewrite P3, P4. lia.
+      * cbv zeta in H1, H2. cbn [app] in H1. split; [rewrite H1, <- app_assoc; reflexivity|].
+        rewrite H2. cbn [flat_map length]. rewrite !app_length. lia.
+Qed.
+
+Lemma slice_data_spec : forall b tail,
+  slice_data A cells b (flat_map cells (valid_entries b) ++ tail) = map cells (valid_entries b).
+Proof.
+  induction b as [|e r IH]; intro tail; [reflexivity|]. cbn [slice_data].
+  destruct (e_valid e) eqn:Ev.
+  - rewrite (valid_entries_cons_true e r Ev). cbn [flat_map map]. rewrite <- app_assoc.
+    rewrite firstn_app_exact, skipn_app_exact, IH. reflexivity.
+  - rewrite (valid_entries_cons_false e r Ev). apply IH.
+Qed.
+
+Theorem read_batches_correct : forall bs dl pre R,
+  dl = pre ++ flat_map cells (concat bs) ++ R ->
+  read_batches A cells true dl bs (length pre) = map (fun b => map cells (valid_entries b)) bs.
+Proof.
+  induction bs as [|b r IH]; intros dl pre R Hdl; [reflexivity|]. cbn [read_batches map].
+  cbn [concat] in Hdl. rewrite flat_map_app, <- app_assoc in Hdl.
+  destruct (scan_read_spec dl b (mkRd A (length pre) [] 0 0) [] [] pre (flat_map cells (concat r) ++ R))
+    as (H1 & H2); cbn [rd_pos rd_buf rd_read rd_used length app]; try reflexivity; [exact Hdl|].
+  cbv zeta in H1, H2. cbn [app] in H1. f_equal.
+  - rewrite H1. rewrite <- (app_nil_r (flat_map cells (valid_entries b))). apply slice_data_spec.
+  - rewrite H2. cbn [length]. rewrite Nat.add_0_r, <- app_length.
+    apply (IH dl (pre ++ flat_map cells b) R). rewrite Hdl, <- app_assoc. reflexivity.
+Qed.
+End DataLogProofs.
+
+Lemma valid_entries_app : forall a b, valid_entries (a ++ b) = valid_entries a ++ valid_entries b.
+Proof. intros a b. unfold valid_entries. apply filter_app. Qed.
+
+Lemma concat_map_valid : forall (B : Type) (f : entry -> B) bs,
+  concat (map (fun b => map f (valid_entries b)) bs) = map f (valid_entries (concat bs)).
+Proof.
+  intros B f bs. induction bs as [|b r IH]; [reflexivity|].
+  cbn [map concat]. rewrite IH, valid_entries_app, map_app. reflexivity.
+Qed.
+
+Lemma combine_map_map : forall (X B C : Type) (f : X -> B) (g : X -> C) l,
+  combine (map f l) (map g l) = map (fun x => (f x, g x)) l.
+Proof. intros X B C f g l. induction l as [|x r IH]; [reflexivity|]. cbn [map combine]. rewrite IH. reflexivity. Qed.
+
+(** OWN DATA: whatever the pattern of valid and cancelled entries, the buffer size and the resulting
+    batching, the flush hands every valid entry exactly the bytes it wrote into the data log *)
+Theorem flush_data_correct : forall hint l, log_ok l ->
+  flush_data hint l = Some (map (fun e => (e_line e, entry_cells e)) (valid_entries (l_entries l))).
+Proof.
+  intros hint l Hok. unfold flush_data.
+  destruct (rounds_agree_partial (buffer_size hint l) (l_entries l) (flush_buffer_fits hint l Hok))
+    as (bs & Hbl & Hcat & _).
+  rewrite Hbl. change bb_read_at_dataread with true. f_equal.
+  assert (Hdl : flat_map entry_cells (l_entries l) = [] ++ flat_map entry_cells (concat bs) ++ []).
+  { cbn [app]. rewrite app_nil_r, Hcat. reflexivity. }
+  pose proof (read_batches_correct Z entry_cells bs (flat_map entry_cells (l_entries l)) [] [] Hdl) as Hrb.
+  cbn [length] in Hrb. rewrite Hrb, concat_map_valid, Hcat. apply combine_map_map.
+Qed.
+
+(** the hypothesis is necessary: reading at [databuffer] instead of [databuffer + dataread] (the seeded
+    change C12_flush_read_offset_after_cancel) gives the first entry the bytes of a later one as soon as
+    one round contains two cancelled entries that each follow an unread valid entry *)
+Definition ex_e5 (v : bool) (line : Z) : entry := mkEntry v (-1) 64 BB_KIND_VARA 0 2 (ex_req 2) line.
+Definition ex_log5 : list entry := [ex_e5 true 1; ex_e5 false 2; ex_e5 true 3; ex_e5 false 4; ex_e5 true 5].
+
+Example read_offset_zero_refuted :
+  read_batches Z entry_cells false (flat_map entry_cells ex_log5) [ex_log5] 0
+    <> map (fun b => map entry_cells (valid_entries b)) [ex_log5] /\
+  hd [] (hd [] (read_batches Z entry_cells false (flat_map entry_cells ex_log5) [ex_log5] 0)) = entry_cells (ex_e5 true 3) /\
+  read_batches Z entry_cells true (flat_map entry_cells ex_log5) [ex_log5] 0
+    = [[entry_cells (ex_e5 true 1); entry_cells (ex_e5 true 3); entry_cells (ex_e5 true 5)]].
+Proof. split; [vm_compute; discriminate | split; vm_compute; reflexivity]. Qed.
+
+Print Assumptions flush_data_correct.
+Print Assumptions read_batches_correct.
